@@ -15,7 +15,7 @@ class C19(Prop):
     LONG_BIAS = 0.5
     WEIGHTS = {"page": 4, "pages": 3, "links": 3, "batch": 3, "again": 4, "create": 2, "delete": 1, "addprefix": 2,
                "rmprefix": 1, "move": 1, "rule": 2, "unrule": 1, "reopen": 1}
-    QUICK = (14, 18)
+    QUICK = (40, 18)
     THOROUGH = (200, 40)
     ASSUMPTIONS = ["closure of named LRUs from the ledger is the ground truth for block arithmetic",
                    "metrics().nb_crawled_pages is compared with the marks the page enumeration reports (mark correctness is C01)"]
